@@ -19,6 +19,7 @@ package main
 
 import (
 	"bytes"
+	"crypto/elliptic"
 	"crypto/sha256"
 	"encoding/hex"
 	"fmt"
@@ -160,9 +161,9 @@ func walletOf(idx ...int) map[common.Uint160]*account.Account {
 // refValid: independent verdict on (code, param, data) for the three wallet layouts.
 func refValid(code, param, data []byte) bool {
 	switch {
-	case len(code) == 35 && code[34] == keys.OpCheckSig:
+	case len(code) == 35 && code[0] == 0x21 && code[34] == keys.OpCheckSig:
 		return len(param) == 65 && keys.VerifyECDSA(code[1:34], data, param[1:])
-	case len(code) == 35 && code[0] == keys.OpPush1:
+	case len(code) == 35 && code[0] == keys.OpPush1 && code[1] == 0x21:
 		return len(param) >= 64 && keys.VerifySchnorr(code[2:], sha256d(data), param[:64])
 	case len(code) >= 37 && code[len(code)-1] == keys.OpCheckMultiSig:
 		n := (len(code) - 3) / 34
@@ -583,6 +584,114 @@ func (c *checker) partA2() sigStats {
 }
 
 // ---------------------------------------------------------------------------------------------
+// A3: many Schnorr key sets, so that every encoding case of the (aggregated) public key occurs:
+// an x coordinate shorter than 32 bytes (leading zero byte, probability 2^-8) must still be
+// published right-aligned, otherwise the account's script names a different point and nothing it
+// signs verifies. Private keys d_i = H(i); key sets {i}, {i,i+1}, {i,i+1,i+2} through the wallet's
+// real path (account.NewSchnorrAggregateAccount, crypto.AggregatePublickeys,
+// crypto.AggregateSignatures), verified by blockchain.RunPrograms and the independent verifier
+// against the independently summed public key. Rounds of 512 i until single keys and aggregated
+// keys with a leading-zero x have each been seen >= 3 times (hard cap on rounds).
+
+type schnorrStats struct {
+	sets, singleShortX, aggShortX int64
+}
+
+func manyKey(i int) []byte {
+	n := elliptic.P256().Params().N
+	h := sha256.Sum256([]byte(fmt.Sprintf("verif-c37-schnorr-key-%d", i)))
+	d := new(big.Int).SetBytes(h[:])
+	d.Mod(d, new(big.Int).Sub(n, big.NewInt(1)))
+	d.Add(d, big.NewInt(1))
+	out := make([]byte, 32)
+	b := d.Bytes()
+	copy(out[32-len(b):], b)
+	return out
+}
+
+func (c *checker) partA3() schnorrStats {
+	var st schnorrStats
+	curve := elliptic.P256()
+	data := unsigned(txShapes()[0]())
+	const perRound = 512
+	maxRounds := c.r.Pick(16, 64)
+	for round := 0; round < maxRounds; round++ {
+		base := 1 + round*perRound
+		accts := make([]*account.Account, perRound+2)
+		xs := make([]*big.Int, perRound+2)
+		ys := make([]*big.Int, perRound+2)
+		par.Go(perRound+2, func(k int) {
+			priv := manyKey(base + k)
+			a, err := account.NewAccountWithPrivateKey(priv)
+			if err != nil {
+				evid.Fatalf("NewAccountWithPrivateKey: %v", err)
+			}
+			accts[k] = a
+			xs[k], ys[k] = curve.ScalarBaseMult(priv)
+		})
+		par.Go(perRound, func(k int) {
+			for size := 1; size <= 3; size++ {
+				set := accts[k : k+size]
+				// independent sum of the public points
+				sx, sy := xs[k], ys[k]
+				for j := 1; j < size; j++ {
+					sx, sy = curve.Add(sx, sy, xs[k+j], ys[k+j])
+				}
+				want := keys.Compress(sx, sy)
+				atomic.AddInt64(&st.sets, 1)
+				if want[1] == 0 {
+					if size == 1 {
+						atomic.AddInt64(&st.singleShortX, 1)
+					} else {
+						atomic.AddInt64(&st.aggShortX, 1)
+					}
+				}
+				desc := fmt.Sprintf("schnorr key set H(%d..%d)", base+k, base+k+size-1)
+				art := map[string]interface{}{"kind": "schnorr-keyset", "first_key_index": base + k, "size": size, "expected_aggregate_key": hex.EncodeToString(want)}
+				var sa *account.SchnorAccount
+				_, pan := guardErr(func() error { sa = account.NewSchnorrAggregateAccount(set); return nil })
+				if pan != "" || sa == nil || sa.ProgramHash == nil {
+					art["error"] = pan
+					c.r.Violate("C37|wallet-sign-failed|schnorr", "NewSchnorrAggregateAccount fails for valid private keys", art)
+					continue
+				}
+				if !bytes.Equal(sa.SumPublicKey[:], want) || !bytes.Equal(sa.RedeemScript, keys.SchnorrCode(want)) {
+					art["got"] = hex.EncodeToString(sa.SumPublicKey[:])
+					c.r.Violate("C37|schnorr-aggregate-key-differs|NewSchnorrAggregateAccount", "the aggregated public key published by the wallet is not the compressed sum of the members' public keys", art)
+				}
+				var pubs [][]byte
+				for j := 0; j < size; j++ {
+					pubs = append(pubs, keys.Compress(xs[k+j], ys[k+j]))
+				}
+				var agg []byte
+				_, pan = guardErr(func() (e error) { agg, e = crypto.AggregatePublickeys(pubs); return })
+				if pan != "" || !bytes.Equal(agg, want) {
+					art["got"] = hex.EncodeToString(agg)
+					c.r.Violate("C37|schnorr-aggregate-key-differs|AggregatePublickeys", "crypto.AggregatePublickeys is not the compressed sum of the public keys", art)
+				}
+				var sig [64]byte
+				err, pan := guardErr(func() (e error) { sig, e = crypto.AggregateSignatures(sa.PrivateKeys, common.Sha256D(data)); return })
+				if err != nil || pan != "" {
+					art["error"] = fmt.Sprint(err, pan)
+					c.r.Violate("C37|wallet-sign-failed|schnorr", "crypto.AggregateSignatures fails for valid private keys", art)
+					continue
+				}
+				sc := signedCase{fmt.Sprintf("schnorr %d", size), desc, *sa.ProgramHash, &pg.Program{Code: sa.RedeemScript, Parameter: append([]byte{}, sig[:]...)}, data, 0}
+				c.verify(sc, true)
+				// the signature must also verify under the independently summed key
+				if !keys.VerifySchnorr(want, sha256d(data), sig[:]) {
+					c.r.Violate("C37|wallet-signature-invalid|schnorr", "the independent verifier rejects a signature set produced by the wallet", art)
+				}
+			}
+		})
+		if (st.singleShortX >= 3 && st.aggShortX >= 3) || c.r.NumViolations() > 0 {
+			break
+		}
+	}
+	return st
+}
+
+// ---------------------------------------------------------------------------------------------
 // B: addresses
 
 const b58 = "123456789ABCDEFGHJKLMNPQRSTUVWXYZabcdefghijkmnopqrstuvwxyz"
@@ -802,6 +911,11 @@ func main() {
 		os.Stdout = stdout
 		evid.Fatalf("many-signatures family did not produce enough short r/s encodings (short r %d, short s %d in %d signatures) — vacuous", st.shortR, st.shortS, st.txSigs)
 	}
+	ks := c.partA3()
+	if (ks.singleShortX < 3 || ks.aggShortX < 3) && r.NumViolations() == 0 {
+		os.Stdout = stdout
+		evid.Fatalf("Schnorr key-set family did not produce enough leading-zero x coordinates (single %d, aggregated %d in %d sets) — vacuous", ks.singleShortX, ks.aggShortX, ks.sets)
+	}
 	c.partB()
 	c.partC()
 	os.Stdout = stdout
@@ -817,9 +931,12 @@ func main() {
 		"rule": "A: standard (4 keys), multisig 1<=m<=n<=4 x every non-empty signer subset x every signing order (chained single-key wallets) + SignMultiSignTransactionByM, Schnorr over every non-empty subset of 4 keys; 3 transaction shapes; RunPrograms must accept (>= m signers) / reject (< m); every single-byte substitution (16-value alphabet) of the signed bytes of the canonical flows must be rejected. " +
 			"every canonical multisig flow (m<n and m==n) additionally under the standard (0x21) and deposit (0x1f) prefixes of the same script: valid must pass, 2 substitutions per byte of the signed bytes must fail; zero signatures, a dropped signature and altered data must fail under prefixes 0x12, 0x21, 0x1f and 0x4b. " +
 			"A2: rounds of 4096 distinct transactions (4 keys, counter in lock time/input/output/attribute) through SignStandardTransaction + RunPrograms, and 4096 distinct raw messages through Account.Sign + crypto.Verify, both cross-checked by the independent verifier, until signatures with a leading-zero r and a leading-zero s have each occurred >= 4 times on the transaction path (hard cap on rounds; fewer = engine error). " +
+			"A3: Schnorr key sets {i}, {i,i+1}, {i,i+1,i+2} over private keys H(i), rounds of 512 i, through NewSchnorrAggregateAccount / AggregatePublickeys / AggregateSignatures + RunPrograms, the published aggregate key compared with the independently summed compressed key and the signature verified under it, until single and aggregated keys with a leading-zero x coordinate have each occurred >= 3 times (hard cap; fewer = engine error). " +
 			"B: 6 issued prefixes x {zero, ff, 160 single bits set/cleared, single-byte values, 200 digests}; single-character substitutions of 3 addresses per prefix. " +
 			"C: amount alphabet + d*10^k (d<=999, k<=18) with negatives + MinInt64. non-trivial = accepted wallet signatures + rejected mutations + round-tripped addresses and amounts",
 		"exhaustive":                  true,
+		"schnorr_key_sets":            ks.sets,
+		"schnorr_keys_with_short_x":   map[string]int64{"single": ks.singleShortX, "aggregated": ks.aggShortX},
 		"many_signatures_tx_path":     st.txSigs,
 		"many_signatures_raw_path":    st.rawSigs,
 		"signatures_with_short_r":     map[string]int64{"tx": st.shortR, "raw": st.shortRraw},
